@@ -4,6 +4,7 @@ import (
 	"context"
 	"sort"
 	"strings"
+	"time"
 
 	"github.com/sboehler/knut/lib/syntax/directives"
 	"golang.org/x/sync/errgroup"
@@ -44,15 +45,32 @@ var (
 // an order chosen by forking (every order in which the loader's goroutines can
 // complete), and cpr.Push replaced by a list recording the arrival order.
 func zzLoadTree(root string) ([]directives.File, error) {
+	fs, err, _ := zzLoadTreeBounded(root, 1<<30)
+	return fs, err
+}
+
+// zzLoadTreeBounded: as zzLoadTree, giving up after maxTasks completed loader
+// tasks (natively: after 3 seconds); terminated reports whether the loader finished.
+func zzLoadTreeBounded(root string, maxTasks int) (fs []directives.File, err error, terminated bool) {
 	if !v.Symbolic() {
 		ch, worker := ParseFileRecursively(root)
 		done := make(chan error, 1)
 		go func() { done <- worker(context.Background()) }()
 		var files []directives.File
-		for f := range ch {
-			files = append(files, f)
+		collected := make(chan struct{})
+		go func() {
+			for f := range ch {
+				files = append(files, f)
+			}
+			close(collected)
+		}()
+		select {
+		case <-collected:
+			return files, <-done, true
+		case <-time.After(3 * time.Second):
+			v.ExitAfterCase() // the loader's goroutines never end: this process must not go on
+			return nil, nil, false
 		}
-		return files, <-done
 	}
 	zzPending, zzArrived = nil, nil
 	v.Override("(*golang.org/x/sync/errgroup.Group).Go", func(g *errgroup.Group, f func() error) {
@@ -65,13 +83,16 @@ func zzLoadTree(root string) ([]directives.File, error) {
 	ctx := context.Background()
 	wg := new(errgroup.Group)
 	var first error
-	res, err := parseRec(ctx, wg, nil, root)
+	res, err := parseRec(ctx, wg, nil, root, nil)
 	if err != nil {
 		first = err
 	} else {
 		zzArrived = append(zzArrived, res)
 	}
 	for step := 0; len(zzPending) > 0; step++ {
+		if step >= maxTasks {
+			return zzArrived, first, false
+		}
 		i := 0
 		if len(zzPending) > 1 {
 			i = v.Choice("schedNext"+string(rune('a'+step)), len(zzPending))
@@ -82,7 +103,37 @@ func zzLoadTree(root string) ([]directives.File, error) {
 			first = err // errgroup reports the first error; the other goroutines still run to completion
 		}
 	}
-	return zzArrived, first
+	return zzArrived, first, true
+}
+
+// VerifIncludeCycle: C14 for include graphs with cycles. The loader terminates
+// (within 12 completed tasks for graphs of at most 3 files; an acyclic graph of n
+// files needs n-1), and a cycle is reported as an error.
+func VerifIncludeCycle() {
+	switch v.Param("graph") {
+	case 0: // a file that includes itself
+		v.FSWrite("root.knut", "2020-01-01 open Assets:A\ninclude \"root.knut\"\n")
+	case 1: // two files that include each other
+		v.FSWrite("root.knut", "include \"sub/a.knut\"\n2020-01-01 open Assets:A\n")
+		v.FSWrite("sub/a.knut", "2020-01-01 open Assets:B\ninclude \"../root.knut\"\n")
+	case 2: // a cycle of three that does not pass through the root
+		v.FSWrite("root.knut", "include \"a.knut\"\n")
+		v.FSWrite("a.knut", "include \"b.knut\"\n2020-01-01 open Assets:A\n")
+		v.FSWrite("b.knut", "include \"a.knut\"\n")
+	case 3: // no cycle: the same file included from two places is loaded twice and the loader ends
+		v.FSWrite("root.knut", "include \"a.knut\"\ninclude \"b.knut\"\n")
+		v.FSWrite("a.knut", "include \"c.knut\"\n")
+		v.FSWrite("b.knut", "include \"c.knut\"\n")
+		v.FSWrite("c.knut", "2020-01-01 price USD 0.9 CHF\n")
+	}
+	_, err, terminated := zzLoadTreeBounded(v.FSPath("root.knut"), 12)
+	v.AssertExcept(terminated, "loader-terminates", "C14-F21", v.Param("graph") != 3)
+	if terminated && v.Param("graph") != 3 {
+		v.Assert(err != nil, "include-cycle-is-an-error")
+	}
+	if terminated && v.Param("graph") == 3 {
+		v.Assert(err == nil, "acyclic-graph-is-loaded")
+	}
 }
 
 // ZZLoadTree exposes zzLoadTree to the harnesses of other packages.
